@@ -198,6 +198,46 @@ def r03b(ctx):
     ctx.floor("R03b-all", n, 4, "EditDistance cost accumulation sites")
 
 
+def r03d(ctx):
+    m = ctx.model
+    ctx.rule("R03d", "EditDistance accumulates only definitive cell costs: every _best_match(row, col) in the fringe loop "
+                     "is preceded by `while cell.tighten_bounds():` on the same cell with no extra conjunct in the test "
+                     "and no break (the loop ends only when the cell reports no further progress)")
+    q = m.need_class("EditDistance")
+    tb = m.method(q, "tighten_bounds")
+    calls = [c for c in walk_no_nested(tb.node) if isinstance(c, ast.Call) and self_attr(c.func) == "_best_match"]
+    ctx.floor("R03d", len(calls), 1, "_best_match calls in EditDistance.tighten_bounds")
+    for c in calls:
+        st = c
+        while st is not None and not isinstance(st, ast.stmt):
+            st = parent(st)
+        blk = parent(st)
+        body = getattr(blk, "body", [])
+        idx = body.index(st) if st in body else -1
+        cell = f"self.edit_matrix[{ast.unparse(c.args[0])}][{ast.unparse(c.args[1])}]" if len(c.args) == 2 else None
+        loops = [w for w in body[:max(idx, 0)] if isinstance(w, ast.While)]
+        good = None
+        why = "no `while <cell>.tighten_bounds()` loop precedes the call"
+        for w in loops:
+            t = ast.unparse(w.test).replace(" ", "")
+            if cell and t == f"{cell}.tighten_bounds()".replace(" ", ""):
+                brk = [b for b in ast.walk(w) if isinstance(b, ast.Break)]
+                if brk:
+                    why = f"the refinement loop can `break` (line {brk[0].lineno}) before the cell is definitive"
+                else:
+                    good = w
+            elif cell and f"{cell}.tighten_bounds()".replace(" ", "") in t:
+                why = f"the refinement loop's test `{norm(w.test, 70)}` has extra conditions, so it can stop before the cell is definitive"
+        if good is not None:
+            ctx.proved("R03d", tb.file, "EditDistance.tighten_bounds", c, "cell refined before accumulation",
+                       f"`while {cell}.tighten_bounds()` runs to exhaustion before _best_match reads the cell's upper bound")
+        else:
+            ctx.violation("R03d", tb.file, "EditDistance.tighten_bounds", c, "cell refined before accumulation",
+                          f"_best_match adds {cell}.bounds().upper_bound into the cumulative cost, but {why}: a non-final "
+                          f"upper bound is accumulated, so the reported list cost differs from the sum of the final "
+                          f"sub-edit costs (and may depend on status settings)")
+
+
 def r03c(ctx):
     m = ctx.model
     ctx.rule("R03c", "the three views read the same script: edited_cost sums edit_list after tightening it; "
@@ -243,6 +283,7 @@ def run(ctx):
     r03a(ctx)
     r03b(ctx)
     r03c(ctx)
+    r03d(ctx)
     from .c04 import r04d
     r04d(ctx)
     ctx.assume("arithmetic inside the third-party assignment solver and numpy accumulation is not analysed")
